@@ -19,17 +19,9 @@ VARIABLE l
 
 TsOf(c) == IF "ts" \in DOMAIN c THEN c.ts ELSE TS
 
-\* deviation sets to try, smallest first
-StaticDevs  == << {"DevTypenameDirsNotValidated"}, {"DevUnionCond"}, {"DevSkipIgnoresVarDefault"}, {"DevNonFiniteFloatIsNull"}, {"DevOuterResultNullsParent"},
-                  {"DevUnionCond", "DevSkipIgnoresVarDefault"}, {"DevUnionCond", "DevNonFiniteFloatIsNull"},
-                  {"DevUnionCond", "DevOuterResultNullsParent"}, {"DevSkipIgnoresVarDefault", "DevNonFiniteFloatIsNull"},
-                  {"DevSkipIgnoresVarDefault", "DevOuterResultNullsParent"}, {"DevNonFiniteFloatIsNull", "DevOuterResultNullsParent"},
-                  {"DevUnionCond", "DevSkipIgnoresVarDefault", "DevNonFiniteFloatIsNull", "DevOuterResultNullsParent"} >>
-DynamicDevs == << {"DevTypenameDirsNotValidated"}, {"DevUnionCond"}, {"DevSkipIgnoresVarDefault"}, {"DevNonFiniteFloatIsNull"}, {"DevDynamicNoLocalCapture"},
-                  {"DevUnionCond", "DevSkipIgnoresVarDefault"}, {"DevUnionCond", "DevNonFiniteFloatIsNull"},
-                  {"DevUnionCond", "DevDynamicNoLocalCapture"}, {"DevSkipIgnoresVarDefault", "DevNonFiniteFloatIsNull"},
-                  {"DevSkipIgnoresVarDefault", "DevDynamicNoLocalCapture"}, {"DevNonFiniteFloatIsNull", "DevDynamicNoLocalCapture"},
-                  {"DevUnionCond", "DevSkipIgnoresVarDefault", "DevNonFiniteFloatIsNull", "DevDynamicNoLocalCapture"} >>
+\* named deviations that may explain a mismatch (known_findings/*.json decides whether they are excused)
+StaticDevs  == {"DevTypenameDirsNotValidated", "DevNonFiniteFloatIsNull", "DevOuterResultNullsParent", "DevGuardNullsParent", "DevFieldPerOccurrence"}
+DynamicDevs == {"DevTypenameDirsNotValidated", "DevNonFiniteFloatIsNull", "DevDynamicScalarUnchecked", "DevFieldPerOccurrence"}
 DevsOf(c) == IF c.flavour = "dynamic" THEN DynamicDevs ELSE StaticDevs
 
 RECURSIVE JoinSet(_)
@@ -76,20 +68,23 @@ Matches(c, dev) ==
        /\ c.obs.data = r.val
        /\ (Mode = "errors" => ErrorsExplained(c, r, "DevDynamicNoErrorPath" \in dev))
 
-RECURSIVE FirstDev(_, _, _)
-FirstDev(c, devs, i) ==
-  IF i > Len(devs) THEN "violation"
-  ELSE IF Matches(c, devs[i]) THEN "known:" \o JoinSet(devs[i])
-  ELSE FirstDev(c, devs, i + 1)
+\* smallest set of deviations that reproduces the observation
+Explaining(c) == {D \in SUBSET DevsOf(c) : D # {} /\ Matches(c, D)}
+FirstDev(c) ==
+  LET E == Explaining(c) IN
+  IF E = {} THEN "violation"
+  ELSE "known:" \o JoinSet(CHOOSE D \in E : \A D2 \in E : Cardinality(D2) >= Cardinality(D))
 
 Verdict(c) ==
   IF c.obs.problem # "" THEN "violation:" \o "problem"
   ELSE IF Matches(c, {}) THEN "ok"
-  ELSE FirstDev(c, DevsOf(c), 1)
+  ELSE FirstDev(c)
 
 TInit == l \in {i \in 1..Len(Cases) : i % Chunk = 1 \/ Chunk = 1}
+Debug == IF "DEBUG" \in DOMAIN IOEnv THEN IOEnv.DEBUG = "1" ELSE FALSE
 TNext == /\ l <= Len(Cases)
          /\ PrintT(<<"VERDICT", Cases[l].id, Verdict(Cases[l])>>)
+         /\ (Debug => PrintT(<<"EXPECTED", Cases[l].id, ToJson(Execute(Ctx(Cases[l], TsOf(Cases[l]), {})))>>))
          /\ l % Chunk # 0
          /\ l' = l + 1
 =============================================================================
